@@ -216,9 +216,18 @@ int open64(const char* path, int flags, ...)
     return open(path, flags, mode);
 }
 
+// `big` op: the data is not stored (the file would be gigabytes); what is checked is where each write is aimed
+static int g_big;
+static unsigned long long g_big_next;
 ssize_t pwrite(int fd, const void* buf, size_t count, off_t off)
 {
     if (!g_active) return syscall(SYS_pwrite64, fd, buf, count, off);
+    if (g_big) {
+        if ((unsigned long long)off != g_big_next)
+            oracle_fail("raw-write-aimed-at-wrong-offset expected=%llu got=%llu count=%zu", g_big_next, (unsigned long long)off, count);
+        g_big_next += count;
+        return (ssize_t)count;
+    }
     char nm[32];
     struct outcome o = next_outcome();
     if (!find_open(fd)) {
@@ -587,6 +596,37 @@ static void run_case(char** lines, int nlines)
             }
             free(pkt);
             finish_op("append", rc == Device_Ok ? "ok" : "err", st);
+            continue;
+        }
+        if (!strcmp(op, "big")) {
+            // big <bytes of one frame> <count>: `count` appends of one large frame each; every byte appended so far must precede the next write
+            char* a = strtok_r(0, " \t\r\n", &save);
+            char* b = strtok_r(0, " \t\r\n", &save);
+            size_t fb = a ? (size_t)strtoull(a, 0, 10) : 0;
+            long cnt = b ? atol(b) : 0;
+            if (fb < sizeof(struct VideoFrame) + 8 || fb % 8 || cnt < 1 || storage_get_state(g_st) != DeviceState_Running) { printf("bad-op\n"); continue; }
+            unsigned char* pkt = calloc(1, fb);   // untouched pages cost nothing; nothing reads them
+            if (!pkt) { printf("big skipped-no-memory\n"); continue; }
+            struct VideoFrame* f = (struct VideoFrame*)pkt;
+            f->bytes_of_frame = fb;
+            f->shape.dims.channels = 1; f->shape.dims.width = (uint32_t)((fb - sizeof(struct VideoFrame)) / 8); f->shape.dims.height = 8; f->shape.dims.planes = 1;
+            f->shape.strides.channels = 1; f->shape.strides.width = 1; f->shape.strides.height = f->shape.dims.width; f->shape.strides.planes = (int64_t)f->shape.dims.width * 8;
+            f->shape.type = SampleType_u8;
+            g_big = 1;
+            if (g_acq_clean) g_big_next = g_acq_len;   // first `big` of this acquisition: continue after what was appended normally
+            g_acq_clean = 0;   // the file's bytes are not there to compare
+            enum DeviceStatusCode rc = Device_Ok;
+            for (long k = 0; k < cnt && rc == Device_Ok; ++k) {
+                f->frame_id = (uint64_t)k;
+                g_active = 1;
+                rc = storage_append(g_st, f, (struct VideoFrame*)(pkt + fb));
+                g_active = 0;
+            }
+            g_big = 0;
+            free(pkt);
+            printf("big %s total=%llu\n", rc == Device_Ok ? "ok" : "err", g_big_next);
+            if (g_orclen) fputs(g_orc, stdout);
+            g_orclen = 0; g_orc[0] = 0;
             continue;
         }
         if (!strcmp(op, "stop")) {
